@@ -62,7 +62,8 @@ package flight12
 //@ end
 
 //@ func flight0Parse
-//@ requires args: state != nil && cache != nil && cfg != nil
+//@ requires args: state != nil && cache != nil && cfg != nil && state.Common != nil && cfg.Log != nil
+//@ requires suites: forall(0, len(cfg.LocalCipherSuites), func(i int) bool { return !isNil(cfg.LocalCipherSuites[i]) })
 //@ ensures cookie-first: !cfg.InsecureSkipHelloVerify ==> result0 == 0 || result0 == Flight2 || result0 == Flight4b
 //@ ensures never-full-flight-unverified: !cfg.InsecureSkipHelloVerify ==> result0 != Flight4
 //@ ensures outcomes: result0 == 0 || result0 == Flight2 || result0 == Flight4 || result0 == Flight4b
